@@ -229,6 +229,9 @@ template <class T> static void runLines (int far)
     Q trueDist = qabs (dot (w, cross (d1, d2))) / qsqrt (sin2);
     check<T> ("Line3.distanceToLine", idot (isub (a1, a0), isub (b1, b0)) == 0 ? "perpendicular" : "skew-nonperpendicular",
               qabs ((Q) dl - trueDist), sc2 * cond, 64, in);
+    // the skew branch depends on the positions only through their (exactly representable) difference: translation-invariant bound,
+    // which an implementation that expands n.(p2 - p1) into n.p2 - n.p1 violates in the FAR class
+    check<T> ("Line3.distanceToLine:translation-invariant", far ? "far-skew" : "skew", qabs ((Q) dl - trueDist), (1 + len (w)) * cond, 64, in);
 }
 
 //------------------------------------------------------------------------------------------------ planes
@@ -333,6 +336,17 @@ template <class T> static void runPlaneXform ()
     // (dir2 L) x (dir1 L) = det(L) |dir1|^2 n L^-T and the cross product of the images of p1,p2,p3 is det(L) N L^-T: same orientation
     check<T> ("Plane3.mulM44", "normal", len (toQ (px.normal) - nq), cond, 32, in);
     for (IV xi : {x1, x2, x3}) check<T> ("Plane3.mulM44", "contains-images", qabs ((Q) px.distanceTo (it<T> (xi))), scale * cond, 32, in);
+    // operator* (Line3, Matrix44) on the same matrix: the line through the images; pos is exact on the lattice
+    if (!izero (isub (p2, p1)))
+    {
+        Line3<T> ln (it<T> (p1), it<T> (p2));
+        Line3<T> lx = ln * M;
+        if (!(lx.pos == it<T> (x1))) flag ("Line3.mulM44", "pos", tname<T> (), "pos of line * M is not the image of pos", in);
+        QV dimg = iq (isub (x2, x1));
+        Q  stretch = len (dimg) / len (iq (isub (p2, p1)));           // |L d| for the unit direction d
+        check<T> ("Line3.mulM44", "unit-dir", qabs (len (toQ (lx.dir)) - 1), 1, 4, in);
+        check<T> ("Line3.mulM44", "dir", len (toQ (lx.dir) - unit (dimg)), (1 + maxabs (iq (x1)) + qsqrt (normM)) / stretch, 16, in);
+    }
     // sides
     IV q = iv (6);
     long side = idot (nI, isub (q, p1));
